@@ -24,80 +24,7 @@ import mir  # noqa: E402
 import refs  # noqa: E402
 from symex import (Adt, Arr, Bool, Cell, Closure, Exec, Int, NONE, Opaque, PathEnd, Ref, Str, Tup, UNIT, Unsupported)  # noqa: E402
 
-ORD = {"Less": -1, "Equal": 0, "Greater": 1}
-HARNESSES = {}
-
-
-def harness(name):
-    def deco(f):
-        HARNESSES[name] = f
-        return f
-    return deco
-
-
-class Native:
-    """the real compiled crate, driven over a pipe"""
-
-    def __init__(self, path):
-        self.p = subprocess.Popen([path], stdin=subprocess.PIPE, stdout=subprocess.PIPE, text=True, bufsize=1)
-
-    def ask(self, *words):
-        self.p.stdin.write(" ".join(words) + "\n")
-        self.p.stdin.flush()
-        return self.p.stdout.readline().strip()
-
-    @staticmethod
-    def hex(b):
-        return b.hex() if b else "-"
-
-    @staticmethod
-    def unhex(s):
-        return b"" if s == "-" else bytes.fromhex(s)
-
-
-class Ctx:
-    def __init__(self, funcs, native, seed):
-        self.funcs = funcs
-        self.native = native
-        self.rng = random.Random(seed)
-        self.failed = []
-        self.covers = {}
-        self.stats = None
-        self.bounds = ""
-        self.extra = {}
-        self.validated = 0
-
-    def find_fn(self, name_re, param_re=None):
-        out = []
-        for n, fl in self.funcs.items():
-            if re.fullmatch(name_re, n):
-                for f in fl:
-                    if param_re is None or all(re.search(pr, pt) for pr, (_i, pt) in zip(param_re, f.params)):
-                        out.append(f)
-        if len(out) != 1:
-            raise Unsupported("function lookup %s matched %d bodies" % (name_re, len(out)))
-        return out[0]
-
-    def cover(self, name, hit=True):
-        self.covers[name] = self.covers.get(name, False) or bool(hit)
-
-    def fail(self, description, function, **inputs):
-        self.failed.append(dict(description=description, function=function, **inputs))
-
-
-def model_bytes(ex, vars_):
-    assert ex.solver.check() == z3.sat
-    m = ex.solver.model()
-    return bytes(m.eval(x, model_completion=True).as_long() for x in vars_)
-
-
-def sym_bytes(ex, name, n, lo=1, hi=0x7f, exclude=()):
-    bs = [z3.BitVec("%s%d" % (name, i), 8) for i in range(n)]
-    for x in bs:
-        ex.solver.add(z3.UGE(x, lo), z3.ULE(x, hi))
-        for e in exclude:
-            ex.solver.add(x != e)
-    return bs
+from mreg import HARNESSES, REPLAYERS, ORD, Native, Ctx, harness, model_bytes, sym_bytes  # noqa: E402,F401
 
 
 # ---------------------------------------------------------------------------------------------------------
@@ -249,7 +176,7 @@ def c13_trans(ctx, l1, l2, l3):
 for _s in [(1, 1, 1), (1, 1, 2), (1, 2, 1), (2, 1, 1), (1, 2, 2), (2, 1, 2), (2, 2, 1), (2, 2, 2), (0, 1, 2), (2, 1, 0), (1, 0, 2)]:
     HARNESSES["c13_trans_%d_%d_%d" % _s] = (lambda s: (lambda ctx: c13_trans(ctx, *s)))(_s)
 
-REPLAYERS = {"c13": replay_c13}
+REPLAYERS["c13"] = replay_c13
 
 
 # ---------------------------------------------------------------------------------------------------------
@@ -266,10 +193,7 @@ def main():
     a = ap.parse_args()
     t0 = time.time()
     res = {"harness": a.harness, "verdict": "ERROR", "failed": [], "covers": []}
-    try:
-        import harnesses_text  # noqa: F401  (registers C15/C19 harnesses if present)
-    except ImportError:
-        pass
+    import harnesses_text  # noqa: F401  (registers the C15/C19 harnesses)
     try:
         funcs = mir.parse_mir(open(a.mir).read())
         ctx = Ctx(funcs, Native(a.native), a.seed)
